@@ -691,6 +691,12 @@ def run(tier):
         if r.initial < (10000 if quick else 80000):
             raise MachineryError('role A instance smaller than expected: %d <<AST, style>> pairs' % r.initial)
         rep.extra['roundtrip_ast_style_pairs'] = r.initial
+        # the token-level and the character-level model agree (parse and semantics)
+        r = run_tlc(work, 'MC_FilterLex.tla', 'MC_FilterLex.cfg' if quick else 'MC_FilterLex_thorough.cfg', workers=8)
+        rep.tlc('model-agreement', r)
+        if r.invariant_violated or not r.completed or r.initial < 4000:
+            raise MachineryError('FilterSem.tla and FilterLex.tla disagree: %s\n%s' % (r.invariant_violated, r.out[-1500:]))
+        rep.extra['model_agreement_ast_style_pairs'] = r.initial
         # (B) generated cases
         g = run_tlc(work, 'MC_FilterSem.tla', 'Gen_FilterSem.cfg' if quick else 'Gen_FilterSem_thorough.cfg',
                     xmx='6g')
